@@ -114,6 +114,11 @@ func c12bLit(v driver.Value) string {
 	case []byte:
 		return "X'" + hex.EncodeToString(x) + "'"
 	case time.Time:
+		// go-sql-driver sends a time.Time as a string parameter and leaves the time of
+		// day out when it is midnight (appendDateTime): the inlined text is that string
+		if x.Hour() == 0 && x.Minute() == 0 && x.Second() == 0 && x.Nanosecond() == 0 {
+			return "'" + x.Format("2006-01-02") + "'"
+		}
 		return "'" + x.Format("2006-01-02 15:04:05") + "'"
 	case string:
 		return "'" + strings.ReplaceAll(strings.ReplaceAll(x, `\`, `\\`), "'", "''") + "'"
